@@ -27,7 +27,7 @@ CHECKS = {
    text="Lean theorems over the ConnLimit transition system (listener takes a permit before accept; a handler's Drop returns it whatever ends the handler): in every reachable state "
         "permits + running handlers + [listener holds one] = max; never more than max handlers; after all handlers ended every permit is available; a waiting client can always be admitted while fewer "
         "than max are served. The same LTS, executed by the driver, predicts for seeded event scripts (connect / probe / clean close / garbage / half frame / handler panic) which connections the real "
-        "server serves; observed over loopback TCP at max_connections 1..3. Failing accept(2) calls are steps of the LTS (acceptFail; c15_accept_failure_free: a failed attempt costs no permit) and are injected into the real listener by the LD_PRELOAD layer (EMFILE / ECONNABORTED, up to the four in a row its back-off tolerates): afterwards exactly max_connections clients are served at a time. The retry loop itself (Listener::accept, u64 doubling back-off) is modelled (Conc/AcceptBackoff.lean; c15_backoff_survives / c15_backoff_gives_up / c15_backoff_zero_min for every min, max, burst length) and tied: bursts of 4 and 5 (thorough 1..5) failing accept(2) calls against the real server, outcome compared with the driver's cl.backoff.",
+        "server serves; observed over loopback TCP at max_connections 1..3. Failing accept(2) calls are steps of the LTS (acceptFail; c15_accept_failure_free: a failed attempt costs no permit) and are injected into the real listener by the LD_PRELOAD layer (EMFILE / ECONNABORTED, up to the four in a row its back-off tolerates): afterwards exactly max_connections clients are served at a time. The retry loop itself (Listener::accept, u64 doubling back-off) is modelled (Conc/AcceptBackoff.lean; c15_backoff_survives / c15_backoff_gives_up / c15_backoff_zero_min for every min, max, burst length) and tied: bursts of failing accept(2) calls at back-off settings (10,100), (5,20), (0,5) (thorough also (1,1), (3,2), (200,100)) against the real server, outcome compared with the driver's cl.backoff.",
    note=COMMON_NOTE + "PARTIAL: the protocol logic is proved; tokio Semaphore / task-drop-on-panic semantics and the kernel's FIFO accept queue are trusted; 'served' is observed with timeouts "
         "(positive expectations wait 5 s, negative ones 250 ms, so a slow machine cannot fabricate an alarm).",
    technique="Lean 4 proof (invariant over a labelled transition system) + model-predicted scenario replay against the real server",
